@@ -184,7 +184,17 @@ func runC11(r *Run) {
 		}
 		r.check(okFallback, "Body:fallback-422", r.fpos(f), "an unknown content type yields ErrUnprocessableEntity", "an unknown content type does not yield ErrUnprocessableEntity")
 		custom := callsMatching(f, false, nameHasSuffix("CustomBinder).MIMETypes"))
-		r.check(len(custom) == 1 && firstCase != nil && precedes(custom[0].Instr, firstCase), "Body:custom-binders-first", r.fpos(f), "custom binders are consulted before the built-in switch", "custom binders are not consulted before the built-in content types")
+		if len(custom) == 1 && custom[0].Instr.Parent() != f {
+			// the lookup among the custom binders in a helper: it happens where Body calls the helper
+			var own []callSite
+			withoutHelpers(func() { own = callsIn(f, false) })
+			for _, oc := range own {
+				if oc.Common.StaticCallee() == custom[0].Instr.Parent() {
+					custom[0] = oc
+				}
+			}
+		}
+		r.check(len(custom) == 1 && firstCase != nil && custom[0].Instr.Parent() == firstCase.Parent() && precedes(custom[0].Instr, firstCase), "Body:custom-binders-first", r.fpos(f), "custom binders are consulted before the built-in switch", "custom binders are not consulted before the built-in content types")
 	})
 
 	r.rule("R3", "error funnel: binder errors go through returnErr; 400 exactly when auto handling is on (E1)", func() {
@@ -485,13 +495,15 @@ func runC11(r *Run) {
 			}
 			seen[g] = true
 			isAdd := func(in ssa.Instruction) bool {
-				return isCallTo(in, func(s string) bool { return strings.Contains(s, "fasthttp.Args).Add") || strings.Contains(s, "fasthttp.Args).Set") })
+				return isCallTo(in, func(s string) bool {
+					return strings.Contains(s, "fasthttp.Args).Add") || strings.Contains(s, "fasthttp.Args).Set")
+				})
 			}
 			path, hit := reach(entryOf(g), isReturn, nil, isAdd)
 			r.check(hit == nil, "parserRequestURL:"+short(g.String())+":adds-every-pair", r.fpos(g), "the visitor adds the pair on every path",
 				"a query-parameter visitor can return without adding the pair ("+pathString(r.P, path)+"): parameters with an empty value are dropped — []string{\"a\",\"\",\"b\"} arrives as {\"a\",\"b\"}, and an empty request-level value no longer overrides the client-level one")
 		}
-		r.atLeast("query-parameter visitors in parserRequestURL", n, 2)
+		r.atLeast("query-parameter visitors in parserRequestURL", n, 1)
 	})
 
 	r.rule("R12", "the default decoders zero what the client sent empty: the package initialiser builds the decoder pools from a ParserConfig in which ZeroEmpty and IgnoreUnknownKeys are set to true — without ZeroEmpty an empty value (`title=`, an empty element of a slice) leaves the destination as it was instead of binding the empty string the client encoded (E8: the defaults the round trip relies on)", func() {
